@@ -720,7 +720,9 @@ def gen_garbage(rng):
     ops += [10, len(ws)] + ws
     for _ in range(rng.randint(1, 60)):
         r = rng.random()
-        if r < 0.8:
+        if r < 0.2:
+            ops += [26, rng.randrange(len(ms)), rng.choice([0, 1, 2, 5, 9])]
+        elif r < 0.8:
             ops += [20, rng.randrange(len(ms))]
         elif r < 0.86:
             ops.append(21)
@@ -859,6 +861,11 @@ def walk(inp, out):
         else:
             if op == 20:
                 yield (20, inp[i + 1], take(4)); i += 2
+            elif op == 26:
+                n = take(1)[0]
+                if n < 0 or n > 10 ** 6:
+                    raise ValueError
+                yield (26, (inp[i + 1], inp[i + 2]), (n, take(2 * n), take(2))); i += 3
             elif op == 21:
                 yield (21, (), take(1)[0]); i += 1
             elif op == 22:
@@ -1135,6 +1142,17 @@ def oracle_C10(inp, out):
                 for j, m in enumerate(args):
                     if st[2 * j] == 0 and h.insup(m, st[2 * j + 1]) is None:
                         return "decoded symbol outside the support"
+            elif op == 26:
+                m, k = args
+                n, items, _ = res
+                if n != k:
+                    return "decode_iid_symbols(%d) yielded %s%d items" % (k, "at least " if n > k else "", n)
+                for j in range(n):
+                    if items[2 * j] == 0:
+                        if h.insup(m, items[2 * j + 1]) is None:
+                            return "decoded symbol %d outside the support" % items[2 * j + 1]
+                    elif items[2 * j] != -6:
+                        return "undocumented decode result %d" % items[2 * j]
     except (IndexError, ValueError):
         return "malformed output"
     return None
@@ -1210,6 +1228,8 @@ def oracle_C18(inp, out):
                 pos = min(nbuf, sb // wb)
             elif op == 20:
                 pos = res[2]
+            elif op == 26:
+                pos = res[2][0]
             elif op == 23:
                 pos = res[0]
             elif op in (22, 24, 25):
